@@ -1,7 +1,89 @@
-/- placeholder driver for C06: replaced when the model is built -/
-import AcnModel.Wire
-open Lean Acn.Wire
+/-
+  Driver for C06: one network (stations, phasors, optional constraint matrix, limits, tolerances),
+  one schedule in three shapes (the `{station: rates}` mapping for `Interface.is_feasible`, the
+  dense matrix for `ChargingNetwork.is_feasible` and the algorithm side, optionally a 1-D vector
+  for the algorithm side) → the three Booleans in both modes, the infrastructure view, and the
+  per-constraint squared magnitudes / linear aggregates / bounds.
 
-def handle (_ : Json) : Except String Json := throw "driver for C06 not built yet"
+  request : {"stations":[str], "has_matrix":bool, "cols":n, "M":[[bits]], "lims":[bits],
+             "cids":[str], "c_net":[bits], "s_net":[bits], "c_alg":[bits], "s_alg":[bits],
+             "voltages":[bits], "net_vt":bits, "net_rt":bits, "vt":bits|null, "rt":bits|null,
+             "sched":[[str,[bits]]] | null, "S":[[bits]] | null, "x":[bits] | null}
+  The phasor coordinates are the implementation's own doubles (`np.exp(1j·deg2rad φ)` for the
+  network side, `np.cos/np.sin(deg2rad φ)` for the algorithm side), computed by the harness.
+-/
+import AcnModel.Wire
+import AcnModel.Feas
+open Lean Acn Acn.Wire Acn.Feas
+
+def jRes : Except FeasErr Bool → Json
+  | .ok b => jB b
+  | .error e => jS e.name
+
+def parseSched (j : Json) : Except String (List (String × List Float)) := do
+  let a ← asArr j
+  a.mapM fun p => do
+    let kv ← asArr p
+    match kv with
+    | [k, v] => pure ((← k.getStr?), (← asFs v))
+    | _ => throw "sched entry must be [station, rates]"
+
+def handle (j : Json) : Except String Json := do
+  let stations ← (← getArr j "stations").mapM (·.getStr?)
+  let cids ← (← getArr j "cids").mapM (·.getStr?)
+  let hasM ← getBool j "has_matrix"
+  let cols ← getNat j "cols"
+  let rows ← getFss j "M"
+  let lims ← getFs j "lims"
+  let net : Net Float := {
+    stations, c := (← getFs j "c_net"), s := (← getFs j "s_net"), voltages := (← getFs j "voltages"),
+    matrix := if hasM then some { cols, rows } else none, lims, cids,
+    vt := (← getF j "net_vt"), rt := (← getF j "net_rt") }
+  let netAlg : Net Float := { net with c := (← getFs j "c_alg"), s := (← getFs j "s_alg") }
+  let vt? ← getOpt j "vt" asF
+  let rt? ← getOpt j "rt" asF
+  let vt := vt?.getD net.vt
+  let rt := rt?.getD net.rt
+  let sched? ← getOpt j "sched" parseSched
+  let S? ← getOpt j "S" (fun v => do let a ← asArr v; a.mapM asFs)
+  let x? ← getOpt j "x" asFs
+  let mut out : List (String × Json) := []
+  -- infrastructure view
+  let infra := netAlg.infraInfo
+  out := out ++ [("infra", match infra with
+    | .ok i => Json.mkObj [("err", Json.null), ("shape", Json.arr #[jN i.nCons, jN i.nCols]),
+                           ("nlims", jN i.lims.length), ("ncids", jN i.cids.length),
+                           ("nstations", jN i.stations.length)]
+    | .error e => Json.mkObj [("err", jS e.name)])]
+  -- interface side
+  match sched? with
+  | some sched =>
+    out := out ++ [("iface", jRes (net.ifaceIsFeasible sched false vt? rt?)),
+                   ("iface_lin", jRes (net.ifaceIsFeasible sched true vt? rt?)),
+                   ("dense", match sched with
+                     | [] => Json.null
+                     | (_, r) :: _ => jFss (densify stations sched r.length))]
+  | none => pure ()
+  -- network side, algorithm side (2-D), magnitudes
+  match S? with
+  | some S =>
+    out := out ++ [("net", jRes (net.isFeasible S false vt? rt?)),
+                   ("net_lin", jRes (net.isFeasible S true vt? rt?))]
+    match infra with
+    | .ok i =>
+      out := out ++ [("alg", jB (i.feasible2 S false vt rt)), ("alg_lin", jB (i.feasible2 S true vt rt))]
+    | .error _ => pure ()
+    let ts := List.range (periods S)
+    out := out ++ [
+      ("sq", jFss (rows.map fun row => ts.map fun t => sqMag row net.c net.s (col S t))),
+      ("lin", jFss (rows.map fun row => ts.map fun t => linAggFixed row (col S t))),
+      ("bound", jFs (lims.map fun lim => lim + tolOf vt rt lim))]
+  | none => pure ()
+  -- algorithm side, 1-D
+  match x?, infra with
+  | some x, .ok i =>
+    out := out ++ [("alg1", jB (i.feasible1 x false vt rt)), ("alg1_lin", jB (i.feasible1 x true vt rt))]
+  | _, _ => pure ()
+  pure (Json.mkObj out)
 
 def main : IO Unit := runDriver handle
